@@ -85,6 +85,8 @@ def strip_cv(t):
 def iclass(t, side, depth=0):
     """Interoperability class of a C type spelling. side: CSide or the Fortran-view dict with 'records'."""
     t = t.strip()
+    # qualifiers of the pointer itself (T *const, T *restrict) say nothing about what is passed
+    t = re.sub(r"(\*)\s*(?:(?:const|volatile|restrict|__restrict)\s*)+$", r"\1", t).strip()
     if depth > 6:
         return ("deep",)
     m = re.match(r"(.*)\[(\d*)\]$", t)
